@@ -54,6 +54,7 @@ inductive Act where
   | pinDefault | pinRecorded | enqueuePin | enqueueUnpin
   | trackNewQ | trackNewRemote | chPin | chUnpin | send | errFull | retErr | clean       -- round 8c: enqueue / Track
   | retEnqueuePin | retEnqueueUnpinCid | getExists | retRecOp | retRecStatus
+  | listAll | forEach | recEntry | appendResp                                            -- round 8c: RecoverAll
   | retOp | addError | retInfo | setStatus (s : Status) | setIpfs | pinLsCid              -- round 8c: Tracker.Status
   | unknown
   deriving DecidableEq, Repr
@@ -355,6 +356,31 @@ def statusTbl (t : Table) (s : State) (ls : Bool) (c : Nat) (stateOk getOk : Boo
   match firstRow t (envStatus (s.cur c).isSome stateOk (s.shared c).isNone getOk k ls (!held)) with
   | some acts => execStatus op (if held then .pinned else .unpinned) acts .undefined false
   | none => none
+
+/-! ### round 8c: `Tracker.RecoverAll` — listing, then the loop (one iteration = table `recoverAllBody`) -/
+
+def envErr (b : Bool) : Atom → Bool
+  | .errNil => b
+  | _ => false
+
+/-- one iteration on the listed entry `(c, st)`: the new state and `some r` when the loop is LEFT returning `r` (none = next entry) -/
+def bodyT (t : Table) (cfg : Cfg) (s : State) (c : Nat) (st : Status) : Option (State × Option Ret) :=
+  match firstRow t (envErr (decide ((recoverWith cfg s c st).2 = .nil))) with
+  | some [.recEntry, .retErr] => some ((recoverWith cfg s c st).1, some (recoverWith cfg s c st).2)
+  | some [.recEntry, .appendResp, .retVoid] => some ((recoverWith cfg s c st).1, none)
+  | _ => none
+
+/-- the loop over the listing `L` with the regenerated body (items as in `raLoop`: activity of the others before the entry, the cid) -/
+def raLoopT (t : Table) (cfg : Cfg) (L : Nat → Option Status) : State → List (List Ev × Nat) → Option (State × Ret)
+  | s, [] => some (s, .nil)
+  | s, (pre, c) :: rest =>
+    match L c with
+    | none => raLoopT t cfg L (run cfg s pre) rest
+    | some st =>
+      match bodyT t cfg (run cfg s pre) c st with
+      | some (s2, some r) => some (s2, r)
+      | some (s2, none) => raLoopT t cfg L s2 rest
+      | none => none
 
 def allStatuses : List Status :=
   [.pinned, .pinning, .pinQueued, .pinError, .unpinned, .unpinning, .unpinQueued, .unpinError,
